@@ -2,6 +2,7 @@
 from .facts import strip_generics, Place, Operand
 from .roles import ManagedRoles, PERMIT_ADT, classify_write, adt_of
 from .engine import Undecided
+from .analysis import sources
 
 MANAGER_CREATE = 'deadpool::managed::Manager::create'
 MANAGER_RECYCLE = 'deadpool::managed::Manager::recycle'
@@ -401,3 +402,77 @@ def users_guard_drop_unconditional(ctx, r, rule):
     ctx.ob(rule, 'the users guard undoes the count on every path of its Drop', ok, ctx.where(d),
            'the undo in Drop is conditional: a get() that ends on the skipped path (unwinding, abandoned) stays counted in users / status().waiting forever' if not ok else '',
            construct='users-guard-drop-conditional')
+
+
+BUILDER = 'deadpool::managed::builder::PoolBuilder'
+PCFG = 'deadpool::managed::config::PoolConfig'
+TMO = 'deadpool::managed::config::Timeouts'
+# public setter -> the configuration field it must store its argument in (public API names on both sides)
+SETTERS = {
+    'max_size': (PCFG, 'max_size'), 'timeouts': (PCFG, 'timeouts'), 'queue_mode': (PCFG, 'queue_mode'),
+    'wait_timeout': (TMO, 'wait'), 'create_timeout': (TMO, 'create'), 'recycle_timeout': (TMO, 'recycle'),
+    'config': (BUILDER, 'config'), 'runtime': (BUILDER, 'runtime'),
+}
+
+
+def builder_plumbing(ctx, rule, setters):
+    """each named PoolBuilder setter stores its argument in exactly the configuration field of the same meaning (a
+    `create_timeout` that writes `timeouts.wait` type-checks and passes every test that sets one timeout at a time)"""
+    prog = ctx.prog
+    n = 0
+    for sname in setters:
+        own, fld = SETTERS[sname]
+        b = prog.body('%s::%s' % (BUILDER, sname))
+        if b is None:
+            ctx.undecide(rule, 'PoolBuilder::%s not found' % sname); continue
+        ctx.saw(b)
+        an = prog.an(b)
+        writes = []
+        for blk in b.blocks:
+            if blk.cleanup:
+                continue
+            for s in blk.stmts:
+                if s.kind == 'assign' and s.place.proj and s.place.local == 1:
+                    writes.append(s)
+        lf = [s.place.last_field() for s in writes]
+        ok_place = len(writes) == 1 and lf[0] == (own, fld)
+        src = sources(an, writes[0].rv.ops[0], deep=True) if len(writes) == 1 and writes[0].rv.ops else set()
+        argn = {x[1] for x in src if x[0] == 'arg'}
+        ok_val = len(argn) == 1 and 'self' not in argn and not any(x[0] == 'const' and x[1] not in ('()',) for x in src if not str(x[1]).startswith('fn')) and \
+            not any(x[0] == 'bin' for x in src)
+        n += 1
+        ctx.ob(rule, 'PoolBuilder::%s stores its argument, unchanged, in %s.%s' % (sname, own.split('::')[-1], fld), ok_place and ok_val, ctx.where(b),
+               'writes %s from %s' % ([('%s.%s' % (x[0].split('::')[-1], x[1])) if x else '?' for x in lf], sorted(str(x[1]) for x in src if x[0] in ('arg', 'const', 'bin'))),
+               construct='builder-setter:' + sname, sites=['%s.%s' % (own.split('::')[-1], fld)])
+    ctx.floor(rule, 'builder setters examined', n, len(setters))
+
+
+def pool_level_timeouts(ctx, r, rule):
+    """get() runs timeout_get with the timeouts the pool was configured with"""
+    prog = ctx.prog
+    g = [b for b in prog.bodies.values() if b.is_coroutine and b.name == 'deadpool::managed::Pool::get::{closure#0}']
+    if len(g) != 1:
+        ctx.undecide(rule, 'Pool::get coroutine not found'); return
+    b = g[0]
+    ctx.saw(b)
+    an = prog.an(b)
+    ctor = r.TIMEOUT_GET.j.get('parent')
+    calls = [blk for blk in b.blocks if blk.term.kind == 'call' and not blk.cleanup and blk.term.rcallee == ctor]
+    ok = False; detail = '%d calls of timeout_get' % len(calls)
+    if len(calls) == 1:
+        src = sources(an, calls[0].term.args[1], deep=True)
+        # through Pool::timeouts() (a public accessor, not inlined) or directly from the configuration
+        via = [x for x in src if x[0] == 'call' and x[1].endswith('Pool::timeouts')]
+        direct = any(x[0] == 'field' and x[1] == '%s.timeouts' % PCFG for x in src)
+        acc_ok = True
+        for x in via:
+            ab = prog.body('deadpool::managed::Pool::timeouts')
+            if ab is None:
+                acc_ok = False; continue
+            aan = prog.an(ab)
+            rets = [s for blk in ab.blocks if not blk.cleanup for s in blk.stmts if s.kind == 'assign' and s.place.local == 0 and s.place.is_local()]
+            acc_ok = acc_ok and bool(rets) and all(any(y[0] == 'field' and y[1] == '%s.timeouts' % PCFG for y in sources(aan, s.rv.ops[0], deep=True)) for s in rets if s.rv.ops)
+        ok = (bool(via) and acc_ok) or direct
+        ok = ok and not any(x[0] == 'call' and x[1].endswith('Default>::default') for x in src) and not any(x[0] == 'agg' and x[1].startswith(TMO) for x in src)
+        detail = 'argument from %s' % sorted({str(x[1]) for x in src if x[0] in ('call', 'field', 'agg')})
+    ctx.ob(rule, 'get() waits, creates and recycles under the pool-level timeouts', ok, ctx.where(b), detail, construct='get:pool-timeouts')
